@@ -4,7 +4,7 @@ import vlib, ksi
 
 WRAP = ["-Wl,--wrap=time,--wrap=close,--wrap=getaddrinfo,--wrap=freeaddrinfo,--wrap=socket,--wrap=ioctl,--wrap=connect,--wrap=poll,--wrap=recv,--wrap=send,--wrap=KSI_AsyncService_run,--wrap=KSI_AsyncService_addRequest"]
 STATE = {0: "undef", 1: "queued", 2: "sent", 3: "resp", 4: "conf", 5: "err", 6: "notice"}
-ERR = {0x204: "sndto", 0x205: "rcvto", 0x203: "conto", 0x202: "neterr", 0x604: "closed", 0x20e: "hmac", 0x101: "parse"}
+ERR = {0x206: "httperr", 0x204: "sndto", 0x205: "rcvto", 0x203: "conto", 0x202: "neterr", 0x604: "closed", 0x20e: "hmac", 0x101: "parse"}
 
 
 def build():
